@@ -3,6 +3,18 @@
 
 def lookup(prop):
     from harness import checks_core
+    if prop == "C18":
+        from harness import check_c18b
+        checks_core.EXTRAS["C18"] = check_c18b.run_signum
     if prop in checks_core.PROPS:
         return checks_core.run
+    if prop == "C06":
+        from harness import check_c06
+        return check_c06.run
+    if prop == "C16":
+        from harness import check_c16
+        return check_c16.run
+    if prop == "C20":
+        from harness import check_c20
+        return check_c20.run
     return None
